@@ -7,6 +7,7 @@ import (
 	"go/types"
 	"math/big"
 	"os"
+	"sort"
 	"strings"
 	"time"
 
@@ -673,7 +674,23 @@ func (e *Engine) havocWrites(s *State, fr *Frame, w *WriteSet, hint string) {
 			}
 		}
 	}
+	// deterministic order (map iteration order would change the numbering of fresh symbols from run to run,
+	// and with it the solvers' behaviour on quantified queries)
+	cellList := make([]*ssa.Alloc, 0, len(w.Cells))
 	for al := range w.Cells {
+		cellList = append(cellList, al)
+	}
+	sort.Slice(cellList, func(i, j int) bool {
+		a, b := cellList[i], cellList[j]
+		if a.Pos() != b.Pos() {
+			return a.Pos() < b.Pos()
+		}
+		if a.Comment != b.Comment {
+			return a.Comment < b.Comment
+		}
+		return a.Name() < b.Name()
+	})
+	for _, al := range cellList {
 		pv, ok := fr.regs[al]
 		if !ok {
 			continue // not yet allocated on this path
